@@ -103,6 +103,50 @@ def grammar_recheck(tag: Optional[str]) -> tuple[bool, str]:
     return False, f"unknown re-check {tag}"
 
 
+def _dag_only_algorithms() -> dict[str, str]:
+    """name -> evidence, for the public functions of the installed networkx/algorithms/dag.py that refuse graphs with cycles."""
+    import os
+    import sys as _sys
+
+    path = next((os.path.join(p_, "networkx", "algorithms", "dag.py") for p_ in _sys.path if p_ and os.path.exists(os.path.join(p_, "networkx", "algorithms", "dag.py"))), None)
+    if path is None:
+        raise AnalysisError("networkx sources not found on sys.path (algorithms/dag.py)")
+    tree = ast.parse(open(path, encoding="utf-8").read())
+    fns = {n.name: n for n in tree.body if isinstance(n, ast.FunctionDef)}
+    direct: dict[str, str] = {}
+    for name, fn in fns.items():
+        raises = [r for r in ast.walk(fn) if isinstance(r, ast.Raise) and r.exc is not None and "NetworkXUnfeasible" in ast.unparse(r.exc)]
+        doc = ast.get_docstring(fn) or ""
+        if raises:
+            direct[name] = "raises NetworkXUnfeasible"
+        elif "NetworkXUnfeasible" in doc or "not a directed acyclic graph" in doc.lower() or "must be a dag" in doc.lower():
+            direct[name] = "documented to refuse cyclic graphs"
+    # functions that run one of them on their own argument
+    changed = True
+    while changed:
+        changed = False
+        for name, fn in fns.items():
+            if name in direct:
+                continue
+            in_try = {id(x) for t in ast.walk(fn) if isinstance(t, ast.Try) for b in t.body for x in ast.walk(b)}
+            for c in ast.walk(fn):
+                if isinstance(c, ast.Call) and id(c) not in in_try:
+                    cn = c.func.id if isinstance(c.func, ast.Name) else c.func.attr if isinstance(c.func, ast.Attribute) else None
+                    if cn in direct and cn in fns and c.args and isinstance(c.args[0], ast.Name) and c.args[0].id in [a.arg for a in fn.args.args[:1]]:
+                        direct[name] = f"runs {cn} on its argument"
+                        changed = True
+                        break
+    return {k: v for k, v in direct.items() if not k.startswith("_") and k not in ("is_directed_acyclic_graph", "is_aperiodic")}
+
+
+def canon_test(prog: Prog, fn: Fn, e: ast.AST) -> str:
+    from ..canon import canon
+    try:
+        return canon(prog, fn, e)[:60]
+    except Exception:  # noqa
+        return u(e)[:60]
+
+
 def raised_class(prog: Prog, fn: Fn, r: ast.Raise):
     """("class", qual) of what a raise statement raises, looking through a local that holds the exception built earlier."""
     exc = r.exc
@@ -585,3 +629,58 @@ def rules(ctx: Ctx) -> None:
                     n_patch += 1
                     ctx.ob("R10.13", f"third-party-attribute-not-rebound:{f.owner}:{u(k)}", False, loc(f.mod, k), f"`{u(prog.enclosing_stmt(k))[:70]}` changes `{u(k)}` of a third-party module for the whole process")
     ctx.ob("R10.13", "third-party-attribute-not-rebound:scanned", True, "sqllineage/", f"{n_patch} assignment(s) to attributes of third-party modules found", trivial=True)
+
+    # ---- R10.14 an `assert` on analysis data is a raise of AssertionError (and vanishes under -O): the contract names the library's exceptions only
+    n_assert = 0
+    for f in prog.funcs.values():
+        if f.mod.name in ("sqllineage.cli", "sqllineage.drawing"):
+            continue
+        for k in prog.walk_fn(f):
+            if isinstance(k, ast.Assert):
+                n_assert += 1
+                always = isinstance(k.test, ast.Constant) and bool(k.test.value)
+                ctx.ob("R10.14", f"no-assert:{f.owner}:{canon_test(prog, f, k.test)}", always, loc(f.mod, k),
+                       f"`{u(k)[:70]}`: when the condition fails, AssertionError escapes instead of SQLLineageException")
+    ctx.ob("R10.14", "no-assert:scanned", True, "sqllineage/", f"{n_assert} assert statement(s) in the analysis package", trivial=True)
+
+    # ---- R10.15 lineage graphs have cycles (a statement that reads what it writes, two statements feeding each other): an algorithm that networkx
+    # defines for acyclic graphs only raises NetworkXUnfeasible / NetworkXError on them.  The list of such algorithms is read from the
+    # installed networkx sources (functions of algorithms/dag.py whose body raises, or whose documentation announces, NetworkXUnfeasible /
+    # "is not a directed acyclic graph"), never imported.
+    dag_only = _dag_only_algorithms()
+    ctx.floor("networkx algorithms defined for acyclic graphs only (read from the installed sources)", len(dag_only), 5)
+    n_nx = 0
+    for f in prog.funcs.values():
+        for k in prog.walk_fn(f):
+            if isinstance(k, ast.Call):
+                nm = k.func.attr if isinstance(k.func, ast.Attribute) else k.func.id if isinstance(k.func, ast.Name) else None
+                if nm is None:
+                    continue
+                tgt = prog.resolve_expr(k.func, f.mod, f)
+                if tgt[0] in ("ext", "extmod") and str(tgt[1]).split(".")[0] == "networkx":
+                    n_nx += 1
+                    if nm in dag_only:
+                        guarded = any(isinstance(a, ast.Try) and any(k is x for b in a.body for x in ast.walk(b)) for a in prog.ancestors(k))
+                        ctx.ob("R10.15", f"no-dag-only-algorithm:{f.owner}:{nm}", guarded, loc(f.mod, k),
+                               f"`{u(k)[:70]}`: networkx.{nm} is defined for acyclic graphs only ({dag_only[nm]}); a script whose lineage has a cycle makes it raise")
+    ctx.floor("calls into networkx", n_nx, 8)
+
+    # ---- R10.16 who may refuse a statement: silent mode turns "unsupported" into a warning at the one place where the statement is dispatched; an
+    # UnsupportedStatementException raised anywhere below that place (inside an extractor or handler) passes the silent-mode branch by
+    unsupported = prog.try_cls("exceptions.UnsupportedStatementException")
+    if unsupported is None:
+        raise AnalysisError("UnsupportedStatementException not found")
+    n_uns = 0
+    for f in prog.funcs.values():
+        for k in prog.walk_fn(f):
+            if not isinstance(k, ast.Raise) or k.exc is None:
+                continue
+            sym = raised_class(prog, f, k)
+            if sym[0] == "class" and prog.is_subclass(prog.classes[sym[1]], unsupported):
+                n_uns += 1
+                reads_silent = any(isinstance(x, ast.Attribute) and "silent" in x.attr.lower() for x in prog.walk_fn(f)) or \
+                    any(isinstance(x, ast.Name) and "silent" in x.id.lower() for x in prog.walk_fn(f))
+                ctx.ob("R10.16", f"unsupported-raised-where-silent-mode-is-decided:{f.owner}", reads_silent, loc(f.mod, k),
+                       f"`{u(k)[:60]}` in {f.owner}: " + ("the function decides on silent mode itself" if reads_silent else
+                                                         "silent mode is decided by the analyzer's dispatch, not here - with silent_mode=True this statement aborts the script instead of being skipped with a warning"))
+    ctx.floor("raise sites of UnsupportedStatementException", n_uns, 2)
